@@ -216,7 +216,9 @@ func main() {
 	c.Assume = []string{
 		"'decoded value' means encoding/json decoding with UseNumber, which is how gqlgen's own transports decode (transport.jsonDecode); encoding/json is trusted as decoder, not as validator",
 		"int is 64-bit (GOARCH amd64)",
-		"Time domain is what RFC 3339 can express: displayed year 0..9999, zone offsets in whole minutes; the zero time and the nil UUID marshal to null by design and are not unmarshalled back",
+		"Time: the validity clauses (strict JSON text, a string or null, bare and inside Array/FieldSet) are checked for EVERY time.Time of the grid, including years < 0 and > 9999 and zone offsets >= 24h or with seconds; the 'denotes the original' and UnmarshalTime round-trip clauses apply only to what RFC 3339 can express (displayed year 0..9999, zone offset in whole minutes below 24h) - outside it UnmarshalTime rejects the string or shifts the instant, observed on the unchanged tree and not reported",
+		"the zero time and the nil UUID marshal to null by design and are not unmarshalled back",
+		"Time, Duration, UUID and Float marshalers are additionally checked inside graphql.Array and graphql.FieldSet for every grid value",
 		"Duration designators use the conventions documented by github.com/sosodev/duration: Y=365d, M=Y/12, W=7d, D=24h",
 		"an Omittable that is not set marshals its zero value by design; only Value() is compared after the round trip",
 		"numeric carriers fed to Unmarshal* are integer-valued (the integer boundary grid); a Float target may round to the nearest float64, every other target must keep the exact number or return an error",
